@@ -103,6 +103,13 @@ fn("ftr", "function ftr(k) return integer is begin if k == 1 then trace true; en
    {"ftr(0)": "r=1\n", "ftr(1)": "r=2\n", "ftr(7)": "r=0\n"})
 fn("flast", 'function flast(k) return integer is begin if k == 1 then last = "s"; return 0; end if; if k == 2 then last = 5; end if; return last + 1; end;',
    {"flast(0)": "r=null\n", "flast(2)": "r=6\n", "flast(1)": "r=0\n"})
+# unset locals: left null with another type by an earlier call, used by in-place built-ins in the first call of a new context
+fn("fnl", 'function fnl(k) return string is begin if k == 1 then w = lower(null); end if; if k == 2 then w = 5; end if; return typeof(w) + ":" + str(isnull(w)); end;',
+   {"fnl(0)": "r=integer:TRUE\n", "fnl(1)": "r=string:TRUE\n", "fnl(2)": "r=integer:FALSE\n"})
+fn("fun", 'function fun(k) return string is begin if k == 1 then s = "a"; end if; x = upper(s); y = typeof(s); z = s + "q"; return str(isnull(s)) + y + str(isnull(x)) + str(isnull(z)); end;',
+   {"fun(0)": "r=TRUEstringTRUEFALSE\n", "fun(1)": "r=FALSEstringFALSEFALSE\n"})
+fn("fdeep", 'function fdeep(n, k) return string is begin if n > 0 then return fdeep(n - 1, k); end if; if k == 1 then s = "a"; end if; x = upper(s); return str(isnull(s)) + typeof(s) + str(isnull(x)); end;',
+   {"fdeep(0, 0)": "r=TRUEstringTRUE\n", "fdeep(3, 0)": "r=TRUEstringTRUE\n", "fdeep(3, 1)": "r=FALSEstringFALSE\n", "fdeep(5, 0)": "r=TRUEstringTRUE\n"})
 fn("farg", "function farg(a, b) return integer is begin if isnull(c) then c = 0; end if; c = c + a * 10 + b; return c; end;", {})
 # farg reads c before assignment lexically -> must be rejected; handled separately
 
@@ -114,7 +121,7 @@ GROUPS = {
     "fx": ["fx"], "fs": ["fs"], "ft": ["ft"], "fxi": ["fxi"], "facc": ["facc"], "fl": ["fl"], "fact": ["fact"], "fib": ["fib"],
     "evod": ["ev", "od2"], "fm": ["fm"], "fms": ["fms"], "fmi": ["fmi"], "fhe": ["fhe"], "fue": ["fue"], "ffa": ["ffa"], "ffe": ["ffe"],
     "fle": ["fle"], "fwe": ["fwe"], "frn": ["frn"], "fo": ["fo0", "fo1", "fo2"], "fp": ["fp"], "fty": ["fty"], "fsafe": ["fsafe"], "fnr": ["fnr"],
-    "add": ["add"], "mark": ["mark"], "at": ["at"], "ferr": ["ferr"], "ftf": ["fonce2", "ftf"], "ftr": ["ftr"], "flast": ["flast"],
+    "add": ["add"], "mark": ["mark"], "at": ["at"], "ferr": ["ferr"], "ftf": ["fonce2", "ftf"], "ftr": ["ftr"], "flast": ["flast"], "fnl": ["fnl"], "fun": ["fun"], "fdeep": ["fdeep"],
 }
 
 
